@@ -68,6 +68,72 @@ def repetition(rng: random.Random) -> str:
     return "".join(c for c in s if (0x20 <= ord(c) < 0x7F) or (0xA0 <= ord(c) <= 0xFF))
 
 
+DATE_DAYNAME = ["Fri, ", "Mon, ", "", "", "Xyz, ", "Friday, "]
+DATE_DAY = ["31", "30", "29", "28", "01", "1", "00", "32"]
+DATE_MONTH = ["Dec", "Jan", "Feb", "Apr", "Jun", "Sep", "Nov", "13", "Foo", "dec"]
+DATE_YEAR = ["0001", "0002", "9998", "9999", "1", "01", "99", "69", "68", "00", "100", "999", "1000", "2026", "10000", "99999999999999999999"]
+DATE_TIME = ["23:59:59", "00:00:00", "24:00:00", "23:60:00", "23:59:60", "12:00", "0:0:0", "99999999999999999999999:0:0", "12.00.00"]
+DATE_ZONE = ["+0100", "-0100", "+1400", "-1400", "+2359", "-2359", "GMT", "UT", "EST", "PDT", "Z", "+0000", "-0000", "", "+2400", "+9999", "+99999999999999999999", "-1"]
+
+
+def boundary_date(rng: random.Random) -> str:
+    """RFC 2822 / RFC 850 / asctime shaped dates at the edges of the datetime range: years 0001, 0002,
+    9998, 9999 with offsets that move the UTC instant outside 1..9999, hour 24, month 13, day 31 in
+    30-day months, 2-digit years, numbers too large for C"""
+    if rng.random() < 0.4:
+        # a well-formed date right at one end of the datetime range, with an offset pointing outwards
+        if rng.random() < 0.5:
+            d, mo, y = rng.choice(["31", "30"]), "Dec", rng.choice(["9999", "9999", "9998"])
+            t, z = rng.choice(["23:59:59", "12:00:00", "00:00:00"]), rng.choice(["-0100", "-1400", "-2359", "EST", "-0001", "GMT", "+0100"])
+        else:
+            d, mo, y = rng.choice(["01", "1", "02"]), "Jan", rng.choice(["0001", "0001", "0002"])
+            t, z = rng.choice(["00:00:00", "12:00:00", "23:59:59"]), rng.choice(["+0100", "+1400", "+2359", "+0001", "GMT", "-0100"])
+        return f"{rng.choice(['Fri, ', 'Mon, ', ''])}{d} {mo} {y} {t} {z}"
+    d, mo, y, t, z = rng.choice(DATE_DAY), rng.choice(DATE_MONTH), rng.choice(DATE_YEAR), rng.choice(DATE_TIME), rng.choice(DATE_ZONE)
+    r = rng.random()
+    if r < 0.75:
+        s = f"{rng.choice(DATE_DAYNAME)}{d} {mo} {y} {t} {z}".rstrip()
+    elif r < 0.85:
+        s = f"{rng.choice(DATE_DAYNAME)}{d}-{mo}-{y} {t} {z}".rstrip()
+    elif r < 0.95:
+        s = f"Fri {mo} {d} {t} {y}"
+    else:
+        s = f"{d} {mo} {y}"
+    if rng.random() < 0.1:
+        s = rng.choice(['"', "W/", " ", "("]) + s
+    return s
+
+
+ACCEPT_MEDIA = ["text/html", "text", "json", "*", "*/*", "text/*", "*/html", "application/xhtml+xml", "x", "a/b/c", "", "TEXT/HTML"]
+ACCEPT_PARAM = ['profile="https://example.com/schema"', "version=1/2", "a=b/c", "u=/", 'p="/"', "q=0.5", "q=0", "q=1", "level=1", "charset=utf-8", "q=0.5;x=/",
+                'q="0.5"', "*=x", "*0=/", "k*=utf-8''a%2Fb", 'v="a;b/c"', "/=1"]
+
+
+def accept_value(rng: random.Random) -> str:
+    """a comma list of media ranges with parameters; in particular media ranges *without* `/` whose
+    parameter value contains one (quoted URL, `1/2`)"""
+    items = []
+    for _ in range(rng.choice([1, 1, 2, 3])):
+        it = rng.choice(ACCEPT_MEDIA)
+        for _ in range(rng.choice([0, 1, 1, 2])):
+            it += rng.choice([";", "; ", " ;"]) + rng.choice(ACCEPT_PARAM)
+        items.append(it)
+    return rng.choice([",", ", ", " , "]).join(items)
+
+
+DATE_TARGETS = {"date", "if_range", "if_modified_since", "if_unmodified_since"}
+ACCEPT_TARGETS = {"accept", "accept_mime", "accept_lang", "accept_charset", "accept_mimetypes", "accept_charsets", "accept_encodings", "accept_languages"}
+
+
+def hostile_for(target: str, rng: random.Random) -> str:
+    """hostile text for one parser / attribute: its structured family half of the time, else the general one"""
+    if target in DATE_TARGETS and rng.random() < 0.5:
+        return boundary_date(rng)
+    if target in ACCEPT_TARGETS and rng.random() < 0.4:
+        return accept_value(rng)
+    return hostile_any(rng)
+
+
 def hostile_any(rng: random.Random) -> str:
     return repetition(rng) if rng.random() < 0.25 else hostile(rng)
 
@@ -396,6 +462,8 @@ def run_attr(attr, env, trusted=None):
         if callable(v) and not hasattr(v, "__len__") and attr not in ("stream", "input_stream", "user_agent"):
             return "ok:method"
     if attr in ACCEPT_CLS:
+        if attr == "accept_mimetypes":
+            v.accept_html, v.accept_xhtml, v.accept_json  # noqa: B018
         return "V:" + c_accept_use(v, ACCEPT_CLS[attr][2])
     if attr in ("args", "cookies"):
         return "V:" + out_list(hs(k) + ":" + hs(x) for k, x in v.items(multi=True))
@@ -493,6 +561,12 @@ class Hostile(Stream):
             ("authorization", "Basic " + "=" * 99), ("authorization", "Basic " + "Zg" * 50 + "="), ("authorization", "Digest " + 'a="' + "\\" * 60), ("accept_mime", "a/b;" + "q=1;" * 60),
             ("accept_mime", ("text/html;level=1," * 40)), ("accept_lang", "-" * 100), ("accept_charset", "utf-8," * 80), ("cc_request", 'max-age="' + "\\" * 50), ("csp", "a " * 100),
             ("age", "9" * 100), ("age", "1_" * 50 + "1"), ("unquote", '"' + '\\"' * 50),
+            ("date", "Fri, 31 Dec 9999 23:59:59 -0100"), ("date", "Fri, 31 Dec 9999 23:59:59 -2359"), ("date", "Mon, 01 Jan 0001 00:00:00 +0100"), ("date", "Mon, 01 Jan 0001 00:00:00 +1400"),
+            ("date", "Tue, 02 Jan 0002 00:00:00 +2359"), ("date", "Thu, 30 Dec 9998 24:00:00 GMT"), ("date", "31 Apr 2026 00:00:00 GMT"), ("date", "01 13 2026 00:00:00 GMT"),
+            ("date", "31 Dec 99 23:59:59 -0100"), ("date", "31 Dec 68 23:59:59 EST"), ("date", "31-Dec-9999 23:59:59 -1400"), ("date", "Fri Dec 31 23:59:59 9999"),
+            ("if_range", "Fri, 31 Dec 9999 23:59:59 -0100"), ("if_range", "Mon, 01 Jan 0001 00:00:00 +0100"), ("if_range", '"Fri, 31 Dec 9999 23:59:59 -0100"'),
+            ("accept_mime", 'text;profile="https://example.com/schema"'), ("accept_mime", "json;version=1/2"), ("accept_mime", "text/html, x;u=/;q=0.5"), ("accept_mime", "*;p=/"),
+            ("accept_mime", 'a;v="b;c/d", text/*'), ("accept", "gzip;v=1/2"), ("accept_lang", "en;v=1/2"), ("accept_charset", "utf-8;v=1/2"),
             ("date", "1 Jan 2026 0:0 +2500"), ("date", "\xe9"), ("if_range", '"x"'), ("if_range", "W/"), ("cookie", 'a="\\'), ("cookie", ";;="), ("unquote", '"'), ("unquote", '"\\"'),
         ]]
         + [{"k": "a", "attr": a, "env": {v: hs(s)}} for a, v, s in [
@@ -503,6 +577,10 @@ class Hostile(Stream):
             ("cookies", "HTTP_COOKIE", 'sid="' + "\\" * 60), ("cookies", "HTTP_COOKIE", 'sid="' + "\\x" * 45), ("url", "HTTP_HOST", "[" * 80), ("host", "HTTP_HOST", ":" * 90),
             ("url", "PATH_INFO", "/" + "%" * 90), ("args", "QUERY_STRING", "&" * 60 + "=" * 60), ("args", "QUERY_STRING", "%" * 99), ("form", "CONTENT_TYPE", "multipart/form-data; boundary=" + '"' * 70),
             ("mimetype_params", "CONTENT_TYPE", 'a/b; k="' + "\\" * 70), ("user_agent", "HTTP_USER_AGENT", "(" * 100), ("if_modified_since", "HTTP_IF_MODIFIED_SINCE", "(" * 90),
+            ("date", "HTTP_DATE", "Fri, 31 Dec 9999 23:59:59 -0100"), ("if_modified_since", "HTTP_IF_MODIFIED_SINCE", "Fri, 31 Dec 9999 23:59:59 -0100"),
+            ("if_unmodified_since", "HTTP_IF_UNMODIFIED_SINCE", "Mon, 01 Jan 0001 00:00:00 +0100"), ("if_range", "HTTP_IF_RANGE", "Fri, 31 Dec 9999 23:59:59 -1400"),
+            ("if_range", "HTTP_IF_RANGE", "Mon, 01 Jan 0001 00:00:00 +2359"), ("accept_mimetypes", "HTTP_ACCEPT", 'text;profile="https://example.com/schema"'),
+            ("accept_mimetypes", "HTTP_ACCEPT", "json;version=1/2"), ("accept_mimetypes", "HTTP_ACCEPT", "text/html;q=0.1, x;u=/"),
             ("host", "HTTP_HOST", "a:b"), ("url", "HTTP_HOST", "\xe9:1"), ("url", "HTTP_HOST", "a b"), ("url", "PATH_INFO", "/\xff%zz"), ("path", "PATH_INFO", "\xe9"),
             ("accept_mimetypes", "HTTP_ACCEPT", "text/html;*0=x"), ("date", "HTTP_DATE", "1 Jan 99999999999999999999 0:0:0"),
             ("if_modified_since", "HTTP_IF_MODIFIED_SINCE", "1 Jan 2026 99999999999999999999999:0:0"), ("if_range", "HTTP_IF_RANGE", "Thu, 01 Jan 2026 00:00:00 +99999999999999999999"),
@@ -526,12 +604,13 @@ class Hostile(Stream):
         while True:
             r = rng.random()
             if r < 0.55:
-                yield {"k": "p", "name": rng.choice(PARSERS), "s": hs(hostile_any(rng))}
+                name = rng.choice(PARSERS)
+                yield {"k": "p", "name": name, "s": hs(hostile_for(name, rng))}
             else:
                 attr = rng.choice(hot_attrs) if rng.random() < 0.7 else rng.choice(attrs)
                 env = {}
                 if attr in ATTR_VAR and rng.random() < 0.95:
-                    env[ATTR_VAR[attr]] = hs(hostile_any(rng))
+                    env[ATTR_VAR[attr]] = hs(hostile_for(attr, rng))
                 for _ in range(rng.choice([0, 0, 1, 2, 4])):
                     env[rng.choice(CLIENT_VARS)] = hs(hostile(rng))
                 case = {"k": "a", "attr": attr, "env": env}
